@@ -42,6 +42,7 @@ def run(ctx):
         file_cache(ctx, built, tmp)
         registry_caches(ctx, tmp)
         dataset_type_cache(ctx, tmp)
+        summary_cache(ctx, built, tmp)
 
 
 # ------------------------------------------------------------------ (a) file cache
@@ -417,6 +418,107 @@ def dataset_type_cache(ctx, tmp):
                  "dataset-type-cache-forgets-calibration-table" if all("Assertion" in str(got[k]) for k in diff) else f"dtcache:{seq}",
                  {"kind": "dtcache", "warmup": [list(x) for x in seq], "differs": [str(k) for k in diff[:5]]})
         del bt
+
+
+# ------------------------------------------------------------------ (d) the summary / record caches against the RegCache model
+def summary_cache(ctx, model_ok, tmp):
+    """Collection summaries read by a client inside a caching context, mirrored to Model/RegCache.lean: enter / exit the
+    context, puts (which extend a run's summary), failed transaction blocks (rolled back), reads."""
+    from lsst.daf.butler import Butler, DatasetType
+
+    rng = ctx.rng
+    root = os.path.join(tmp, "s")
+    a = repo.make_butler(root)
+    repo.basic_dimensions(a, detectors=tuple(range(1, 60)))
+    dts = [DatasetType(f"sd{i}", {"instrument", "detector"}, "StructuredDataDict", universe=a.dimensions) for i in range(3)]
+    for d in dts:
+        a.registry.registerDatasetType(d)
+    b = Butler.from_config(root, writeable=False)  # uncached observer
+    req, impl = [], []
+    det = [0]
+
+    def viol(what, key, replay):
+        ctx.violations.append(core.Violation(what=what, key=key, replay=replay))
+
+    def mask(bt, run):
+        names = {t.name for t in bt.registry.getCollectionSummary(run).dataset_types}
+        return sum(1 << i for i, d in enumerate(dts) if d.name in names)
+
+    n_hist = 12 if ctx.quick() else 300
+    for h in range(n_hist):
+        runs = [f"s{h}_{i}" for i in range(2)]
+        for r in runs:
+            a.registry.registerRun(r)
+        req.append("rc new"), impl.append("ok")
+        truth = {0: 0, 1: 0}
+        ops = []
+        import contextlib
+
+        with contextlib.ExitStack() as stack:
+            inside = False
+            for step in range(rng.randint(6, 14)):
+                r_ = rng.random()
+                if r_ < 0.12 and not inside:
+                    stack.enter_context(a.registry.caching_context())
+                    inside = True
+                    req.append("rc enter"), impl.append("ok")
+                    ops.append("enter")
+                elif r_ < 0.18 and inside:
+                    stack.close()
+                    inside = False
+                    req.append("rc exit"), impl.append("ok")
+                    ops.append("exit")
+                elif r_ < 0.45:
+                    k, t = rng.randrange(2), rng.randrange(3)
+                    det[0] += 1
+                    if det[0] >= 58:
+                        break
+                    a.put({"v": step}, dts[t], instrument="I", detector=det[0], run=runs[k])
+                    truth[k] |= 1 << t
+                    req.append(f"rc write {k} {truth[k]}"), impl.append("ok")
+                    ops.append(f"put {k} {t}")
+                elif r_ < 0.58:
+                    # a transaction block that writes, reads through the cache, and fails
+                    k, t = rng.randrange(2), rng.randrange(3)
+                    det[0] += 1
+                    if det[0] >= 58:
+                        break
+                    snap = dict(truth)
+                    try:
+                        with a.transaction():
+                            a.put({"v": step}, dts[t], instrument="I", detector=det[0], run=runs[k])
+                            req.append(f"rc write {k} {truth[k] | (1 << t)}"), impl.append("ok")
+                            got = mask(a, runs[k])
+                            req.append(f"rc read {k}"), impl.append(str(got))
+                            raise RuntimeError("boom")
+                    except RuntimeError:
+                        pass
+                    req.append("rc rollback " + ",".join(f"{kk}@{vv}" for kk, vv in snap.items())), impl.append("ok")
+                    ops.append(f"failed-block put {k} {t}")
+                else:
+                    k = rng.randrange(2)
+                    got = mask(a, runs[k])
+                    req.append(f"rc read {k}"), impl.append(str(got))
+                    ops.append(f"read {k} -> {got}")
+                    ctx.evaluations += 1
+                    want = mask(b, runs[k])
+                    if got != want:
+                        viol(f"summary of a run read by the cached client after {ops[-4:]} has dataset-type mask {got}, an uncached client sees {want}",
+                             f"summary-cache:{ops}", {"kind": "summary-cache", "ops": ops})
+                        break
+        ctx.count("summary-cache-history")
+        if any(o.startswith("failed") for o in ops) and "enter" in ops:
+            ctx.nontrivial.add(("summary", tuple(ops)))
+    if model_ok:
+        got = core.driver(req)
+        nd = 0
+        for line, m, i in zip(req, got, impl):
+            if m != i:
+                nd += 1
+                if nd <= 5:
+                    ctx.broken.append(f"correspondence (registry cache): `{line}` model={m} implementation={i}")
+        ctx.extra["regcache_correspondence_lines"] = len(req)
+        ctx.extra["regcache_correspondence_disagreements"] = nd
 
 
 def replay(ctx, content):
